@@ -770,6 +770,67 @@ def render_x(f, n, depth=0):
     return render(sub(n, depth))
 
 
+def _loop_of_var(f):
+    """decl id of a range-for loop variable -> the RangeFor node (cached on the Func)."""
+    m = getattr(f, '_loopvars', None)
+    if m is None:
+        m = {}
+        for n in f.walk():
+            if n.get('k') == 'RangeFor' and n.get('c') and n['c'][0].get('k') == 'Var':
+                m[n['c'][0].get('d')] = n
+        f._loopvars = m
+    return m
+
+
+def render_prov(f, n):
+    """render() in which a name introduced for an ELEMENT is replaced by where the element comes from, so that the text does not depend on how
+    a loop names its element: the variable of a range-for over C renders as `C[*]`, a structured binding of it as `C[*].first` / `C[*].second`
+    (`.#k` for tuple-likes), a structured binding of a local declaration as `<initialiser>.first`."""
+    return _render_prov(f, n, False)
+
+
+def render_canon(f, n):
+    """render_prov() that in addition spells out every local that is defined once (whatever its type) and writes parameters by position
+    (`$0`, `$1`, ...): the text then names only fields, functions and literals, so it survives the renaming, introduction or removal of locals
+    and parameters."""
+    return _render_prov(f, n, True)
+
+
+def _render_prov(f, n, canon):
+    lv = _loop_of_var(f)
+    pix = {p_.get('d'): i for i, p_ in enumerate(f.params)} if canon else {}
+    depth = [0]
+
+    def sub(x):
+        if canon and x.get('k') == 'Ref' and x.get('dk') == 'parm' and x.get('d') in pix:
+            return {'k': 'Ref', 'dk': 'prov', 'n': '$%d' % pix[x['d']]}
+        if canon and x.get('k') == 'Ref' and x.get('dk') == 'local' and x.get('d') not in lv and depth[0] < 6:
+            i_ = single_def(f, x.get('d'))
+            if i_ is not None and not (i_.get('k') == 'Construct' and not i_.get('c')):   # a default-constructed local is filled later: keep its name
+                depth[0] += 1
+                try:
+                    return {'k': 'Ref', 'dk': 'prov', 'n': render(sub(i_))}
+                finally:
+                    depth[0] -= 1
+        if x.get('k') == 'Ref' and x.get('dk') == 'local' and x.get('d') in lv:
+            return {'k': 'Ref', 'dk': 'prov', 'n': render(sub(role(lv[x['d']], 'range'))) + '[*]'}
+        if x.get('k') == 'Ref' and x.get('dk') == 'binding' and x.get('bof') is not None:
+            mem = x.get('bm') or ('#%d' % x.get('bix', 0))
+            if x['bof'] in lv and 'std::pair<' in (lv[x['bof']]['c'][0].get('t') or '')[:16] and x.get('bix', 0) < 2:
+                mem = ('first', 'second')[x.get('bix', 0)]
+            if x['bof'] in lv:
+                return {'k': 'Ref', 'dk': 'prov', 'n': render(sub(role(lv[x['bof']], 'range'))) + '[*].' + mem}
+            i_ = single_def(f, x['bof'])
+            if i_ is not None:
+                return {'k': 'Ref', 'dk': 'prov', 'n': render(sub(i_)) + '.' + mem}
+        if not x.get('c'):
+            return x
+        y = dict(x)
+        y['c'] = [sub(c) for c in x['c']]
+        return y
+    return render(sub(n))
+
+
 def rendered_conds_x(f, node):
     """Branch facts at node with named sub-conditions spelled out (see render_x); the decomposition into conjuncts is redone on the
     expanded condition, so `if (!ok)` with `ok = a == 0` yields the fact (a == 0, False)."""
